@@ -164,8 +164,20 @@ func calendarMain(args []string) error {
 			y, m, d := base.AddDate(0, 0, day).Date()
 			h, mi, s := randClock(r)
 			c := civ{Y: y, M: int(m), D: d, H: h, Mi: mi, S: s, Ns: randNs(r, r.Intn(10)), Off: calZones[r.Intn(len(calZones))]}
-			if v == 0 {
-				c.Off = 0
+			if c.Off != 0 && r.Intn(3) == 0 {
+				// a local time whose UTC calendar day is the neighbouring one
+				w := c.Off
+				if w < 0 {
+					w = -w
+				}
+				sod := r.Intn(w)
+				if r.Intn(4) == 0 {
+					sod = []int{0, 1, w - 1}[r.Intn(3)]
+				}
+				if c.Off < 0 {
+					sod = 86400 - 1 - sod
+				}
+				c.H, c.Mi, c.S = sod/3600, sod%3600/60, sod%60
 			}
 			t := c.time()
 			if day >= -3 && day <= 65535+3 {
@@ -184,6 +196,32 @@ func calendarMain(args []string) error {
 					e := safeStr(func() { c16.Append(t); back = c16.Row(0).UTC() })
 					tw.Emit(map[string]any{"ev": "ColDate", "c": c, "err": e, "back": civOf(back)})
 				}
+			}
+		}
+	}
+	// (1b) around the epoch and the ends of the ranges: every zone, every edge of the clock
+	edgeDays := []int{-25567, -25566, -2, -1, 0, 1, 2, 65534, 65535, 120528, 120529}
+	cnt := 0
+	for _, day := range edgeDays {
+		for _, off := range calZones {
+			w := off
+			if w < 0 {
+				w = -w
+			}
+			for _, sod := range []int{0, 1, 3599, 3600, w - 1, w, w + 1, 43200, 86400 - w - 1, 86400 - w, 86400 - w + 1, 86398, 86399} {
+				cnt++
+				if sod < 0 || sod >= 86400 || !mine(cnt) {
+					continue
+				}
+				y, m, d := base.AddDate(0, 0, day).Date()
+				c := civ{Y: y, M: int(m), D: d, H: sod / 3600, Mi: sod % 3600 / 60, S: sod % 60, Ns: []int{0, 1, 999999999}[cnt%3], Off: off}
+				t := c.time()
+				if day >= 0 && day <= 65535 {
+					dv := proto.ToDate(t)
+					tw.Emit(map[string]any{"ev": "ToDate", "c": c, "v": map[string]any{"days": int(dv)}, "back": civOf(dv.Time())})
+				}
+				d32 := proto.ToDate32(t)
+				tw.Emit(map[string]any{"ev": "ToDate32", "c": c, "v": map[string]any{"days": int(d32)}, "back": civOf(d32.Time())})
 			}
 		}
 	}
